@@ -39,6 +39,7 @@ type World struct {
 	structs        map[string]*StructInfo
 	specFiles      []string
 
+	tparams     map[string]types.Type // type parameters of the generic function being verified
 	assumptions map[string]bool // collected textual assumptions for evidence
 	errors      []string
 }
@@ -210,6 +211,12 @@ func (w *World) resolveFuncName(pkg, name string) string {
 		return "(*" + pkg + "." + name[2:]
 	}
 	if strings.HasPrefix(name, "(") {
+		// a receiver that is not a type of the package (e.g. a type parameter) stays as written
+		if i := strings.Index(name, ")"); i > 0 {
+			if p := w.pkgs[pkg]; p != nil && p.Types != nil && p.Types.Scope().Lookup(name[1:i]) == nil {
+				return name
+			}
+		}
 		return "(" + pkg + "." + name[1:]
 	}
 	// a dotted name whose head is an imported package (stubs in package files) stays
@@ -295,7 +302,35 @@ func derefType(t types.Type) types.Type {
 	if p, ok := t.Underlying().(*types.Pointer); ok {
 		return p.Elem()
 	}
+	if tp, ok := t.(*types.TypeParam); ok {
+		if el := typeParamPointerElem(tp); el != nil {
+			return el
+		}
+	}
 	return t
+}
+
+// typeParamPointerElem: T if the type parameter's constraint has the single core type *T.
+func typeParamPointerElem(tp *types.TypeParam) types.Type {
+	iface, ok := tp.Constraint().Underlying().(*types.Interface)
+	if !ok {
+		return nil
+	}
+	var found types.Type
+	for i := 0; i < iface.NumEmbeddeds(); i++ {
+		et := iface.EmbeddedType(i)
+		switch e := et.(type) {
+		case *types.Pointer:
+			found = e.Elem()
+		case *types.Union:
+			if e.Len() == 1 {
+				if p, ok := e.Term(0).Type().(*types.Pointer); ok {
+					found = p.Elem()
+				}
+			}
+		}
+	}
+	return found
 }
 
 func (w *World) prepassFunc(fn *ssa.Function) {
@@ -441,9 +476,12 @@ func (w *World) sortOf(d *Decls, t types.Type) *Sort {
 		w.declStruct(d, si)
 		return si.Sort
 	case *types.TypeParam:
+		if el := typeParamPointerElem(x); el != nil {
+			return SPtr
+		}
 		n := "TP_" + sanitize(x.Obj().Name())
 		d.Raw(n, fmt.Sprintf("(declare-sort %s 0)", n))
-		return &Sort{Name: n}
+		return namedSort(n)
 	case *types.Tuple:
 		if x.Len() == 0 {
 			return SUnit
@@ -505,6 +543,7 @@ func (w *World) rangeAssume(d *Decls, t *Term, ty types.Type) *Term {
 	switch ty.Underlying().(type) {
 	case *types.Slice:
 		return And(Le(IntLit(0), SlcLen(t)), Le(SlcLen(t), SlcCap(t)), Le(IntLit(0), SlcOff(t)),
+			Le(SlcCap(t), BigLit("4611686018427387903")),
 			Implies(IsNil(SlcArr(t)), Eq(SlcCap(t), IntLit(0))))
 	}
 	return TTrue
@@ -620,6 +659,21 @@ func (w *World) findImport(pkg *packages.Package, name string) *types.Package {
 // evalType parses a Go type expression in the scope of pkg.
 func (w *World) evalType(pkg *packages.Package, text string) (types.Type, error) {
 	text = strings.TrimSpace(text)
+	if w.tparams != nil {
+		if t, ok := w.tparams[text]; ok {
+			return t, nil
+		}
+		if strings.HasPrefix(text, "[]") {
+			if t, ok := w.tparams[text[2:]]; ok {
+				return types.NewSlice(t), nil
+			}
+		}
+		if strings.HasPrefix(text, "*") {
+			if t, ok := w.tparams[text[1:]]; ok {
+				return types.NewPointer(t), nil
+			}
+		}
+	}
 	if pkg != nil {
 		// qualified names need the importing file scope: try each file's scope position
 		for _, f := range pkg.Syntax {
@@ -708,4 +762,15 @@ func (w *World) evalTypeManual(pkg *packages.Package, text string) (types.Type, 
 // funcDeclOf finds the AST of a function (for loop ordinals and scopes).
 func (w *World) funcSyntax(fn *ssa.Function) ast.Node {
 	return fn.Syntax()
+}
+
+var namedSorts = map[string]*Sort{}
+
+func namedSort(n string) *Sort {
+	if s, ok := namedSorts[n]; ok {
+		return s
+	}
+	s := &Sort{Name: n}
+	namedSorts[n] = s
+	return s
 }
